@@ -63,6 +63,17 @@ SITES = {
                  '/2': {'links': ['/3']},
                  '/3': {'links': ['/4']},
                  '/4': {'links': []}}), ['http://a.test/']),
+    'sitemap': (S({'/': {'redirect': [302, '/login']},
+                   '/login': {'links': ['/never']},
+                   '/robots.txt': {'body': 'Sitemap: http://a.test/sitemap.xml\n',
+                                   'ctype': 'text/plain'},
+                   '/sitemap.xml': {'body': '<?xml version="1.0"?><urlset xmlns="http://www.'
+                                            'sitemaps.org/schemas/sitemap/0.9"><url><loc>http://'
+                                            'a.test/a.html</loc></url><url><loc>http://a.test/'
+                                            'b.html</loc></url></urlset>',
+                                    'ctype': 'application/xml'},
+                   '/a.html': {'links': ['/b.html']}, '/b.html': {'links': []},
+                   '/never': {'links': []}}), ['http://a.test/']),
     'fivestart': (S({'/s1': {'links': ['/m']}, '/s2': {'links': []}, '/s3': {'links': ['/s1']},
                      '/s4': {'links': []}, '/s5': {'links': ['/m']}, '/m': {'links': []}}),
                   ['http://a.test/s1', 'http://a.test/s2', 'http://a.test/s3',
@@ -86,6 +97,11 @@ OPTSETS = {
               dict(recursive=True, reject_regex=r'/(c|t|2|k\.png|sub/)')),
     'r-p-l1': (['-r', '-p', '-l', '1'], dict(recursive=True, page_requisites=True,
                                              level=1)),
+    # sitemaps: /robots.txt and /sitemap.xml are queued for every start URL before it is
+    # fetched (not modelled by the reference crawler: only used where the uninterrupted run
+    # itself is the reference, C03)
+    'r-sm-rej': (['-r', '--sitemaps', '--reject-regex', 'login'],
+                 dict(recursive=True, reject_regex='login', sitemaps=True)),
 }
 
 
